@@ -16,7 +16,7 @@
 (* and not a clipped raw.  raw = 2^n - 1 (n > 1) reads back as missing:    *)
 (* the one alteration FM-94 itself makes.                                  *)
 (***************************************************************************)
-EXTENDS Tables, FiniteSets
+EXTENDS Tables, Bits, FiniteSets
 
 CONSTANTS QCases,      \* sequence of [id, dw, ds, y]
           Reach,       \* inputs are taken within +-Reach (in units of m) of every edge
@@ -62,6 +62,33 @@ RefTable == SetToSeqQ({[y |-> y, v |-> v, fits |-> RefFits(y, v)] : y \in RefWid
 RefFitsIsSignMagnitude == \A y \in RefWidths : \A v \in RefValues(y) : RefFits(y, v) <=> (v \in (1 - 2 ^ (y - 1))..(2 ^ (y - 1) - 1))
 ASSUME RefFitsIsSignMagnitude
 ASSUME PrintT(ToJson([reftable |-> RefTable]))
+
+(* ---- every width 1..64: range refusal stated on bit lengths ------------------------------------ *)
+(* The cases above stay inside TLC's 32-bit integers.  The range rule itself needs no arithmetic: a field of n bits
+   holds the raw value exactly when the value's bit length is at most n, and it reads back as missing exactly when it
+   is n ones (n > 1).  Raw values travel as bit sequences (most significant bit first), taken around 2^n, 2^(n+1) and
+   around every octet multiple 2^8, 2^16, ... 2^72 above the field - the places where an implementation that packs
+   whole octets, or goes through a machine word or a double, would wrap instead of refusing. *)
+WideWidths == 1..64
+StripZ(bs) == IF SignificantBits(bs) = 0 THEN <<0>> ELSE LowBits(bs, SignificantBits(bs))
+(* 2^e + k for -16 <= k <= 16 *)
+Near(e, k) == IF e <= 20 THEN StripZ(UintBits(2 ^ e + k, e + 2))
+              ELSE IF k >= 0 THEN <<1>> \o Zeros(e - 5) \o UintBits(k, 5)
+              ELSE Ones(e - 5) \o UintBits(32 + k, 5)
+WideOffsets == {-2, -1, 0, 1, 5}
+WideExps(n) == {n - 1, n, n + 1} \cup {b \in {8, 16, 24, 32, 40, 48, 53, 56, 64, 72} : b > n}
+WideRaws(n) == {Near(e, k) : e \in {x \in WideExps(n) : x >= 2}, k \in WideOffsets} \cup {<<0>>, <<1>>}
+WideFits(n, raw) == SignificantBits(raw) <= n
+WideMissing(n, raw) == n > 1 /\ Len(StripZ(raw)) = n /\ IsAllOnes(StripZ(raw))
+(* the same rule stated as a comparison with 2^n *)
+WideFitsIsBelowPow2 == \A n \in WideWidths : \A raw \in WideRaws(n) :
+    WideFits(n, raw) <=> BLess(ZeroExtend(raw, 80), ZeroExtend(<<1>> \o Zeros(n), 80))
+WideMissingIsTopOfRange == \A n \in WideWidths : \A raw \in WideRaws(n) :
+    WideMissing(n, raw) <=> (n > 1 /\ WideFits(n, raw) /\ ~WideFits(n, BAdd(ZeroExtend(raw, 80), ZeroExtend(<<1>>, 80))))
+ASSUME WideFitsIsBelowPow2
+ASSUME WideMissingIsTopOfRange
+WideRows(n) == SetToSeqQ({[raw |-> raw, fits |-> WideFits(n, raw), missing |-> WideMissing(n, raw)] : raw \in WideRaws(n)})
+ASSUME \A n \in WideWidths : PrintT(ToJson([widetable |-> n, rows |-> WideRows(n)]))
 
 VARIABLES ci, m
 vars == <<ci, m>>
